@@ -614,7 +614,7 @@ class C20(fw.Prop):
             "assigned as a whole, explicit configurations used, on the HUGR itself / another HUGR / nothing drawn; the "
             "judged renderings go through render_dot(), render_dot(config=None), DotRenderer().render, "
             "DotRenderer(None), DotRenderer(RenderConfig()), an explicit configuration, a configuration object re-used "
-            "with changed attributes; every two renderings of a case under equal options must be the same drawing, "
+            "with changed attributes, a renderer made at the start of the history and left alone; every two renderings of a case under equal options must be the same drawing, "
             "colours and names included (determined_b)")
     trusted = ["harness/props/c20.py: tokenising parser of the DOT text the graphviz package emits and of the HTML-like "
                "node labels (insensitive to whitespace, quoting style, attribute and statement order, styling attributes "
@@ -674,6 +674,13 @@ class C20(fw.Prop):
         for i in range(12 if tier == "quick" else 100):
             seed = r5.randrange(1 << 30)
             c = {"ext": seed} if r5.random() < 0.7 else {"seed": seed, "root": None, "mutate": 0}
+            if "seed" in c:
+                # each case holds 3-8 drawings of its HUGR: keep the big builder programs out (literal size)
+                try:
+                    if len(list(progs.run(progs.gen_program(random.Random(seed), None)).hugr)) > 60:
+                        c = {"ext": seed}
+                except Exception:
+                    c = {"ext": seed}
             c.update({"reload": r5.random() < 0.15, "resolve": False, "shared": False,
                       "cfgs": [0] + r5.sample(range(1, 6), r5.randint(0, 1)),
                       "hist": gen_history(r5, 2 if tier == "quick" else 3)})
@@ -737,8 +744,9 @@ class C20(fw.Prop):
                 {"k": "dflt", "q": True, "pal": None, "draw": None, "first": False}, {"k": "draw", "path": "dot"}]},
             {"prog": "extops_instantiate", "reload": True, "resolve": True, "cfgs": [0, 4], "hist": [
                 # explicit configurations given / assigned / re-used with changed attributes before default renderings
-                {"k": "explicit", "ci": 4, "draw": "h"}, {"k": "draw", "path": "dot"},
-                {"k": "assign", "ci": 3, "draw": "h"}, {"k": "draw", "path": "rend"},
+                {"k": "hold", "ci": None}, {"k": "hold", "ci": 1},
+                {"k": "explicit", "ci": 4, "draw": "h"}, {"k": "draw", "path": "dot"}, {"k": "draw", "path": "held", "i": 0},
+                {"k": "assign", "ci": 3, "draw": "h"}, {"k": "draw", "path": "rend"}, {"k": "draw", "path": "held", "i": 1},
                 {"k": "cfgobj", "ci": 0, "q": True, "pal": "nb", "draw": "h"}, {"k": "draw", "path": "fresh"},
                 {"k": "draw", "path": "recfg", "ci0": 1, "ci": 2}, {"k": "draw", "path": "explicit", "ci": 4},
                 {"k": "explicit", "ci": 5, "draw": "warm"}, {"k": "draw", "path": "dotnone"}]},
@@ -853,13 +861,13 @@ class C20(fw.Prop):
                 rs.append([cfg, {"error": "ParseError: " + str(e)[:200]}])
             except Exception as e:
                 rs.append([cfg, {"error": type(e).__name__}])
-        notes = []
+        notes, held = [], []
         for st in case.get("hist", []):
-            self.hist_step(st, h, view, rs, notes)
+            self.hist_step(st, h, view, rs, notes, held)
         after = json.dumps(hobs.dump(h), sort_keys=True, default=repr)
         return {"view": view, "rs": rs, "unchanged": before == after, "prog": p, "hist_notes": notes}
 
-    def hist_step(self, st, h, view, rs, notes):
+    def hist_step(self, st, h, view, rs, notes, held):
         """one step of a history (seeded round 5).  `draw` steps are renderings of the HUGR under options that are
         beyond doubt (no configuration given: whatever RenderConfig() is; or a configuration holding the stated
         values at the time of the call) - they are judged, and compared with every other rendering of the case made
@@ -896,7 +904,29 @@ class C20(fw.Prop):
                 rend.render(h if which == "h" else warmup_hugr())
             except Exception as e:
                 rs.append([declared(*dflt()), {"error": type(e).__name__}])
-        if k == "draw":
+        if k == "hold":
+            # a renderer made now (without a configuration, or with one nobody touches afterwards), used later by a
+            # `draw` step with path "held": its options are those of its creation
+            try:
+                if st.get("ci") is None:
+                    palette, q = dflt()
+                    held.append((DotRenderer(), declared(palette, q)))
+                else:
+                    pal, q = CONFIGS[st["ci"]]
+                    held.append((DotRenderer(RenderConfig(palette=PALETTE[pal], qualify_op_name=q)), declared(PALETTE[pal], q)))
+            except Exception as e:
+                rs.append([declared(*dflt()), {"error": type(e).__name__}])
+        elif k == "draw" and st["path"] == "held":
+            if not held:
+                return
+            rend, cfg = held[st.get("i", 0) % len(held)]
+            try:
+                rs.append([cfg, self.parse(rend.render(h).source, view, cfg)])
+            except ParseError as e:
+                rs.append([cfg, {"error": "ParseError: " + str(e)[:200]}])
+            except Exception as e:
+                rs.append([cfg, {"error": type(e).__name__}])
+        elif k == "draw":
             path = st["path"]
             if path in ("explicit", "recfg"):
                 pal, q = CONFIGS[st["ci"]]
@@ -1964,12 +1994,18 @@ def gen_history(rng, phases):
             return {"k": "draw", "path": "explicit", "ci": rng.randrange(1, 6)}
         return {"k": "draw", "path": "recfg", "ci0": rng.randrange(6), "ci": rng.randrange(1, 6)}
     steps = []
+    nheld = rng.choice([0, 0, 1, 1, 2])
+    for _ in range(nheld):
+        steps.append({"k": "hold", "ci": rng.choice([None, None, 1, 2, 3, 4, 5])})
     if rng.random() < 0.5:
         steps.append({"k": "draw", "path": rng.choice(["rend", "dotnone", "fresh"])})
     for ph in range(rng.randint(2, phases)):
         for _ in range(rng.randint(1, 2)):
             steps.append(around())
-        steps.append(judged())
+        if nheld and rng.random() < 0.6:
+            steps.append({"k": "draw", "path": "held", "i": rng.randrange(nheld)})
+        else:
+            steps.append(judged())
         if rng.random() < 0.25:
             steps.append(judged())
     return steps
